@@ -467,6 +467,10 @@ func runSequence(seq int) {
 					if u, err := w.Unlock([]byte(pwOf[id])); err != nil {
 						f["unlockRestores"] = false
 					} else {
+						// C17: where a secret key is held (the unlocked copy holds all of them) it belongs to the entry's public key
+						if !entriesConsistent(u) {
+							f["entriesConsistent"] = false
+						}
 						_, _, usec := reference(si, len(p.Ext), len(p.Chg))
 						got := []string{}
 						for _, o := range [][]wallet.Option{{wallet.OptionExternal()}, {wallet.OptionChange()}} {
